@@ -249,7 +249,16 @@ def pairwise_checks(ck: Check, n_cases: int):
                 "droplets": [[d.position.tolist(), d.radius] for d in drops]}
         sig = {"gen": "pairwise", "dim": dim}
         ck.case(("pairwise", dim, tuple(per), grid is None, tuple(d.data.tobytes() for d in drops)), nontrivial=n >= 2)
-        for sub in (False, True):
+        if n >= 2 and rng.random() < 0.5:
+            # a call history on this very object first: overlap removal on a copy-free, already separated emulsion (nothing to remove) -
+            # the distance queries afterwards must not see what an earlier call did to its own working arrays
+            far = min((my_distance(a.position, b.position, grid) - a.radius - b.radius) for i, a in enumerate(em) for b in em[i + 1:])
+            em.remove_overlapping(min_distance=min(far - 0.1, 0.0) if far > 0 else far - 0.1, grid=grid)
+            if len(em) != n:
+                em = Emulsion(drops)
+            else:
+                ck.count("queries_after_remove_overlapping_on_the_same_object")
+        for sub in (True, False, True, False):
             M = em.get_pairwise_distances(subtract_radius=sub, grid=grid)
             if M.shape != (n, n):
                 ck.fail(f"pairwise matrix has shape {M.shape}", {**sig, "check": "pairwise_shape"}, case)
